@@ -88,7 +88,8 @@ Known(t0) ==
   ELSE LET w == W(t) IN
   CASE w.k = "func"  -> IF w.p \in DOMAIN outs THEN [ok |-> TRUE, v |-> outs[w.p]] ELSE [ok |-> FALSE]
     [] w.k = "param" -> IF w.i \in DOMAIN args THEN [ok |-> TRUE, v |-> args[w.i]] ELSE [ok |-> FALSE]
-    [] w.k = "value" -> IF w.p \in DOMAIN consts THEN [ok |-> TRUE, v |-> consts[w.p]] ELSE [ok |-> FALSE]
+    [] w.k = "value" -> IF w.tok # "" THEN [ok |-> TRUE, v |-> [t |-> w.tok]]            \* the expression's own token
+                        ELSE IF w.p \in DOMAIN consts THEN [ok |-> TRUE, v |-> consts[w.p]] ELSE [ok |-> FALSE]
     [] w.k = "struct" ->
          IF w.ptr THEN (IF t \in DOMAIN seen THEN [ok |-> TRUE, v |-> seen[t]] ELSE [ok |-> FALSE])
          ELSE StructBody(w)
